@@ -161,6 +161,8 @@ fn judge(obs: String, resp: Option<Response>, expect: &str) -> (String, String) 
             _ => {
                 if let Some((true, _, _)) = side {
                     fails.push(format!("C02:foreign_accepted:{}", t[2]));
+                    // C03: it would complete a probe of this tracer although no probe of this tracer caused it
+                    fails.push(format!("C03:a_response_that_is_not_for_a_probe_of_this_tracer_passes_the_acceptance_test:{}", t[2]));
                 }
             }
         }
@@ -935,6 +937,17 @@ pub fn run(args: &Args, out: &mut Out) {
                 for (facet, f) in foreign {
                     let (fb, _) = quote(c.v6, &addr_bytes(rc.src), &peer, &f);
                     recv_case(&rc, from, &fb, &format!("foreign={sc}={facet}"), out);
+                    k.foreign += 1;
+                }
+                // another sender's datagram to the same target and ports whose payload is NOT the marker, quoted by a router that cuts
+                // the quotation inside (or right before) the payload: what is quoted of the payload is a prefix of the marker
+                if c.v6 && c.proto == Protocol::Udp && c.strat == MultipathStrategy::Dublin && d.len() >= iph + 14 {
+                    let cut = rng.below(6) as usize;
+                    let mut f = d.clone();
+                    f[iph + 8 + cut] ^= 0x20;
+                    let p2 = Peer { n: iph + 8 + cut, ext: ExtForm::Absent, ..peer.clone() };
+                    let (fb, _) = quote(c.v6, &addr_bytes(rc.src), &p2, &f);
+                    recv_case(&rc, from, &fb, &format!("foreign={sc}=marker_cut_after_{cut}_octets"), out);
                     k.foreign += 1;
                 }
             }
